@@ -114,13 +114,19 @@ def run_history(rng, maxlen, thorough, record):
                     ub.set_lattice("x", *lat)
                     out = "ok-unexpected"
                 elif k == "setU":
-                    ub.set_u(R); line = "ub setU " + m2w(R)
+                    buf = np.array(R, float) if rng.random() < 0.7 else R.tolist()
+                    ub.set_u(buf); line = "ub setU " + m2w(R)
+                    if isinstance(buf, np.ndarray):
+                        buf[...] = 7.5          # the caller reuses its scratch array for the next sample: what was handed over must have been copied
                 elif k == "setUBad":
                     line = "ub setU none"
                     ub.set_u(rng.choice([[[1, 0], [0, 1]], [1, 2, 3], np.eye(4)])); out = "ok-unexpected"
                 elif k == "setUb":
                     M = R @ ub.crystal.B if ub.crystal is not None else np.array([[rng.uniform(-2, 2) for _ in range(3)] for _ in range(3)]) + 3 * np.eye(3)
-                    ub.set_ub(M); line = "ub setUb " + m2w(M)
+                    buf = np.array(M, float) if rng.random() < 0.7 else np.asarray(M).tolist()
+                    ub.set_ub(buf); line = "ub setUb " + m2w(M)
+                    if isinstance(buf, np.ndarray):
+                        buf[...] = -3.25
                 elif k == "setUbBad":
                     line = "ub setUb none"
                     ub.set_ub(rng.choice([[[1, 0], [0, 1]], np.eye(4)])); out = "ok-unexpected"
